@@ -64,12 +64,32 @@ UnitFloatOp(t) ==
       [] r.ok = "odd" -> Unspec        \* accepted by the code; the value is outside the half units
       [] r.ok = "no" -> Rej
 
+\* readings per unit set.  The unit grammar is modelled for the second based set; for the tokens of group
+\* g_big (amounts around 2^63 / 2^64) the table says per built-in set whether the amount fits in int64
+\* (units.go:303 overflow guards); other strings under the byte / nanosecond sets are left open.
+UnitIntOpU(t, u) ==
+    LET b == Tok[t].ubig[u] IN
+    IF b = "fits" THEN Ok(I64(HugeAmount))
+    ELSE IF b \in {"over", "nolex"} THEN Rej
+    ELSE IF u = "sec" THEN UnitIntOp(t) ELSE Unspec
+UnitFloatOpU(t, u) ==
+    LET b == Tok[t].ubig[u] IN
+    IF b = "fits" THEN Ok(F64(2 * HugeAmount))
+    ELSE IF b \in {"over", "nolex"} THEN Rej        \* integral counts go through the int64 guards also for floats
+    ELSE IF u = "sec" THEN UnitFloatOp(t) ELSE Unspec
+\* a huge amount stands in no fixed relation to bounds / enum values at the edge points
+EdgeConstrained(s) ==
+    CASE s.kind = "int" -> (s.min.some /\ IsEdge(s.min.v)) \/ (s.max.some /\ IsEdge(s.max.v))
+      [] s.kind = "float" -> (s.min.some /\ s.min.v % 2 = 0 /\ IsEdge(s.min.v \div 2)) \/ (s.max.some /\ s.max.v % 2 = 0 /\ IsEdge(s.max.v \div 2))
+      [] s.kind = "enum_int" -> \E i \in DOMAIN s.values : IsEdge(s.values[i])
+IsHuge(m) == m.ok = "yes" /\ ((m.v.k = "int" /\ m.v.v = HugeAmount) \/ (m.v.k = "float" /\ m.v.v = 2 * HugeAmount))
+
 \* ------------------------------------------------------------------ input mappers
 \* int.go:156 intInputMapper
 IntMapper(raw, units) ==
     CASE raw.k = "str" ->
             IF raw.rep # "string" THEN Rej
-            ELSE IF units.some THEN UnitIntOp(raw.v)
+            ELSE IF units.some THEN UnitIntOpU(raw.v, units.v)
             ELSE IF Tok[raw.v].int.ok THEN Ok(I64(Tok[raw.v].int.v)) ELSE Rej
       [] raw.k = "int" -> IF raw.rep = "named" THEN Rej ELSE IF FitsI64(raw.v) THEN Ok(I64(raw.v)) ELSE Rej
       [] raw.k = "float" ->
@@ -83,7 +103,7 @@ IntMapper(raw, units) ==
 FloatMapper(raw, units) ==
     CASE raw.k = "str" ->
             IF raw.rep # "string" THEN Rej
-            ELSE IF units.some THEN UnitFloatOp(raw.v)
+            ELSE IF units.some THEN UnitFloatOpU(raw.v, units.v)
             ELSE LET r == Tok[raw.v].flt IN
                  IF ~r.ok THEN Rej
                  ELSE (CASE r.cls = "num" -> Ok(F64(r.h))
@@ -375,10 +395,10 @@ OneOfCompat(s, x) ==
 ScalarUnser(s, raw) ==
     CASE s.kind = "int" ->         \* int.go:56
             LET m == IntMapper(raw, s.units) IN
-            IF m.ok # "yes" THEN m ELSE IF IntBounds(s, m.v.v) THEN m ELSE Rej
+            IF m.ok # "yes" THEN m ELSE IF IsHuge(m) /\ EdgeConstrained(s) THEN Unspec ELSE IF IntBounds(s, m.v.v) THEN m ELSE Rej
       [] s.kind = "float" ->       \* float.go:56
             LET m == FloatMapper(raw, s.units) IN
-            IF m.ok # "yes" THEN m ELSE IF FloatBounds(s, m.v) THEN m ELSE Rej
+            IF m.ok # "yes" THEN m ELSE IF IsHuge(m) /\ EdgeConstrained(s) THEN Unspec ELSE IF FloatBounds(s, m.v) THEN m ELSE Rej
       [] s.kind = "string" ->      \* string.go:61
             LET m == StringMapper(raw) IN
             IF m.ok # "yes" THEN m ELSE IF StringBounds(s, m.v.v) THEN m ELSE Rej
@@ -388,7 +408,7 @@ ScalarUnser(s, raw) ==
             IF m.ok # "yes" THEN m ELSE IF Tok[m.v.v].re THEN Ok(Re(m.v.v)) ELSE Rej
       [] s.kind = "enum_int" ->    \* enum_int.go:36
             LET m == IntMapper(raw, s.units) IN
-            IF m.ok # "yes" THEN m ELSE IF Member(s, m.v.v) THEN m ELSE Rej
+            IF m.ok # "yes" THEN m ELSE IF IsHuge(m) /\ EdgeConstrained(s) THEN Unspec ELSE IF Member(s, m.v.v) THEN m ELSE Rej
       [] s.kind = "enum_string" -> \* enum_string.go:46: the result has the native type T
             LET m == StringMapper(raw) IN
             IF m.ok # "yes" THEN m
